@@ -3,6 +3,11 @@
   events the cfg-gated shim reports (crash points and shared accesses), over an abstract segment
   file; the writer process may die at any event; a restarted writer runs the same sequence over
   whatever is there. Sequential (real) memory: the interleavings with readers are C02/C03's subject.
+  Prior file states (`Prior`): missing, empty, garbage, wiped, valid (any version / generation), and
+  `foreign` — a segment of another layout revision (wrong second magic word over plausible fields and
+  a payload). Observed (`Observed`): the fatal event, the file left behind, what an attached reader
+  and a FRESH reader obtain between the crash and the restart (`att1`, `fresh1`) and after the restart
+  (`att2`, `fresh`). `C04.HoldsFile` includes "nobody reads what was never published" on `fresh1`.
   Import-free.
 -/
 import ClockBound.Model.Daemon
@@ -110,7 +115,11 @@ def recCells (k : Nat) : List Nat :=
   if k % 7 = 3 then [0, 0, 1000, 0, 0, k, 0]
   else (List.range 6).map (fun i => k * 8 + i + 1) ++ [k % 3]
 
+/-- the prior file states. `foreign gen k` is a segment of ANOTHER layout revision: 72 bytes, first
+    magic word right, second magic word wrong, but plausible size / version / generation fields and a
+    payload (`recCells k`) — not usable, and nothing of it may ever be handed to a client -/
 inductive Prior | missing | empty | garbage | wiped | valid (gen k : Nat) | validv (version gen k : Nat)
+  | foreign (gen k : Nat)
 deriving Repr, BEq, DecidableEq, Inhabited
 
 def Prior.file : Prior → FileA
@@ -120,6 +129,7 @@ def Prior.file : Prior → FileA
   | .wiped => { present := true, len := 72, magic0 := true, magic1 := true, size := 72 }
   | .valid g k => { present := true, len := 72, magic0 := true, magic1 := true, size := 72, version := 1, gen := g, cells := recCells k }
   | .validv v g k => { present := true, len := 72, magic0 := true, magic1 := true, size := 72, version := v, gen := g, cells := recCells k }
+  | .foreign g k => { present := true, len := 72, magic0 := true, magic1 := false, size := 72, version := 1, gen := g, cells := recCells k }
 
 def cellsText (cs : List Nat) : String := String.intercalate "," (cs.map toString)
 
@@ -137,6 +147,9 @@ structure Observed where
   open1 : String
   len1 : Int
   att1 : String
+  /-- what a reader that opens the file AFTER the crash and BEFORE the restart obtains from its first
+      `snapshot()` (`"none"` if it cannot attach) -/
+  fresh1 : String
   inodeSame : Bool
   len2 : Int
   fresh : String
@@ -153,11 +166,12 @@ def predict (p : Prior) (k k1 k2 : Nat) : Observed :=
   let f2 := runAll f1 (recCells k2)
   let r2 := r1.map (·.snap f2)
   { ev := (ev.map Ev.name).getD "end", open1 := openText f1, len1 := if f1.present then f1.len else -1,
-    att1 := (r1.map (fun r => cellsText r.cache)).getD "none", inodeSame := f0.present, len2 := f2.len,
+    att1 := (r1.map (fun r => cellsText r.cache)).getD "none",
+    fresh1 := if openText f1 ≠ "ok" then "none" else cellsText (({} : ReaderA).snap f1).cache, inodeSame := f0.present, len2 := f2.len,
     fresh := cellsText (({} : ReaderA).snap f2).cache, att2 := (r2.map (fun r => cellsText r.cache)).getD "none" }
 
 def Observed.text (o : Observed) : String :=
-  s!"ev {o.ev} ; crashed open:{o.open1} file:{o.len1} attached:{o.att1} ; restarted inode_same:{if o.inodeSame then 1 else 0} len:{o.len2} fresh:{o.fresh} attached:{o.att2} mode:{o.mode}"
+  s!"ev {o.ev} ; crashed open:{o.open1} file:{o.len1} attached:{o.att1} fresh:{o.fresh1} ; restarted inode_same:{if o.inodeSame then 1 else 0} len:{o.len2} fresh:{o.fresh} attached:{o.att2} mode:{o.mode}"
 
 end ClockBound.Crash
 
@@ -170,9 +184,15 @@ open ClockBound ClockBound.Crash
     * a segment that was usable before is taken over in place (same inode, same length, never
       emptied: an attached reader never faces a truncated mapping), an attached reader keeps
       obtaining only complete records — the prior one, the empty one if the prior generation was odd,
-      or the first incarnation's record — and sees the restarted writer's publication without reopening -/
+      or the first incarnation's record — and sees the restarted writer's publication without reopening;
+    * nobody reads what was never published: a FRESH client that manages to attach between the crash
+      and the restart obtains the empty record, the record being published, or — over a usable prior —
+      the prior's record; never anything else (e.g. the payload of a foreign / half-wiped file under a
+      header the dead writer had just made valid) -/
 def HoldsFile (p : Prior) (k1 k2 : Nat) (o : Observed) : Bool :=
   o.fresh == cellsText (recCells k2) && o.mode == "644" &&
+  (o.fresh1 == "none" || o.fresh1 == cellsText (List.replicate 7 0) ||
+   o.fresh1 == cellsText (recCells k1) || (p.file.usable && o.fresh1 == cellsText p.file.cells)) &&
   (if p.file.usable then
      o.inodeSame && o.len1 == 72 && o.len2 == 72 && o.open1 == "ok" &&
      (o.att1 == cellsText p.file.cells || o.att1 == cellsText (recCells k1) || o.att1 == cellsText (List.replicate 7 0)) &&
